@@ -109,6 +109,11 @@ func raceKey(blk string) string {
 	if (builds(a) || builds(b)) && evals(a) && evals(b) && !other(a) && !other(b) {
 		return "F33-nth-token-cache-unsynchronised"
 	}
+	// ... and the third party: Snapshot copies the last (or --tail-trimmed) chunk by value, item by item,
+	// while a worker publishes the cache pointer in one of those items
+	if snap(a) && builds(b) && !snap(b) || snap(b) && builds(a) && !snap(a) {
+		return "F33-nth-token-cache-unsynchronised"
+	}
 	return ""
 }
 
